@@ -83,14 +83,19 @@ def generate(seed: int, tier: str) -> Dict[str, Any]:
         raw.setdefault("t2", {})["sim_threshold"] = r.choice([-1.0, 0.0, 0.3])
         if r.chance(0.35):
             raw["scheduler"] = {"enabled": True, "quantum_ms": 10**9, "budgets": {"wall_ms": 2 * 10**9, "t3_ops": r.choice([0, 1, 2, 3])}}
+        if r.chance(0.4):
+            raw.setdefault("t3", {})["dialogue"] = {"template": r.choice(["summary: {labels}. next: {intent}", "{intent} {snippets}", "{labels}"]),
+                                                    "include_top_k_snippets": r.choice([0, 2])}
+        if r.chance(0.4):
+            raw.setdefault("t3", {})["tokens"] = r.choice([1, 2, 3])
         ops = E.gen_ops(rng.stream("ops"), world, r.randint(2, 5), p_mut=0.1)
-        return {"target": "turns", "world": world, "cfg": raw, "ops": ops, "style_prefix": r.choice(["", "calm", "two words"])}
+        return {"target": "turns", "world": world, "cfg": raw, "ops": ops, "style_prefix": r.choice(["", "calm", "two words", "very calm indeed", "a|b c"])}
     script = []
     for _ in range(r.randint(1, 4)):
         script.append({"plan": r.randint(0, len(PLANS) - 1), "wrap": r.choice(WRAPS), "transport": r.choice(TRANSPORT), "cut": r.randint(0, 300),
                        "stall_s": r.choice([0, 5, 100000])})
     return {"target": "peer", "script": script, "max_tokens": r.choice([1, 8, 64, 256]), "tokens": r.choice([1, 3, 256]), "timeout_ms": r.choice([1, 1000, 10000]),
-            "style_prefix": r.choice(["", "calm"])}
+            "style_prefix": r.choice(["", "calm", "very calm", "three word prefix"])}
 
 
 # ---------------------------------------------------------------------------
